@@ -110,6 +110,15 @@ class BC:
         return (x3, F.mul(l, P[0] ^ x3) ^ x3 ^ P[1])
 
 
+    def mul(self, k, P):
+        R = None
+        for b in bin(k)[2:]:
+            R = self.add(R, R)
+            if b == "1":
+                R = self.add(R, P)
+        return R
+
+
 def probe_cases(sels):
     return ["curve_probe %s" % s for s in sels]
 
@@ -188,6 +197,15 @@ def gen_fb(F, digs, rng, tier, budget=1.0):
             cases.append("fb_size_str %s %s %d" % (c, hx(v), radix))
             cases.append("fb_write_str %s %s %d %d" % (c, hx(v), radix, m + 2))
             cases.append("fb_read_str %s %s %d" % (c, hb(b"101\0"), radix))
+    for _ in range(int((40 if quick else 400) * budget)):              # seeded random: element x radix x buffer
+        v = rng.getrandbits(rng.choice((m, m, m - 1, rng.randrange(1, m + 1))))
+        radix = rng.choice(VALID_RADIX)
+        nm = numeral(v, radix)
+        cases.append("fb_size_str %s %s %d" % (c, hx(v), radix))
+        cases.append("fb_write_str %s %s %d %d" % (c, hx(v), radix, len(nm) + 1 + rng.choice((0, 0, 0, 1, -1, 9))))
+        cases.append("fb_read_str %s %s %d" % (c, hb(nm.encode() + rng.choice((b"\0", b"", b"\0\0"))), radix))
+        cases.append("fb_write_bin %s %s %d" % (c, hx(v), fb))
+        cases.append("fb_read_bin %s %s" % (c, hb(be(rng.getrandbits(8 * fb), fb))))
     for radix in VALID_RADIX + INVALID_RADIX[:6]:
         rd = lambda s: cases.append("fb_read_str %s %s %d" % (c, hb(s), radix))
         rd(b"")
@@ -243,6 +261,13 @@ def point_set(cv, rng, nrand):
     for _ in range(nrand):
         Q = cv.next_on(cv.F.rnd(rng))
         pts += [Q, cv.neg(Q)] if rng.random() < 0.5 else [Q]
+    for _ in range(max(1, nrand // 3)):                               # [h]Q: random points of the subgroup of prime order
+        Q = cv.next_on(cv.F.rnd(rng))
+        for _ in range(cv.h.bit_length() - 1):
+            Q = cv.add(Q, Q)
+        pts.append(Q)
+    for k in ([rng.getrandbits(40)] if nrand < 10 else [rng.getrandbits(40), rng.randrange(1, cv.n), cv.n - 2]):
+        pts.append(cv.mul(k, G))                                      # scalar multiples of G
     seen, out = set(), []
     for Q in pts:
         if Q is not None and Q not in seen:
@@ -338,6 +363,31 @@ def gen_eb(cv, rng, tier, budget=1.0):
         rd(b"\4" + xb + be(0, fb))
         rd(b"\4" + xb + be(1, fb))
         rd(b"\4" + xb + xb)
+    # seeded random: abscissae (about half have no point), the points over them in random representations, random
+    # strings of the three valid lengths
+    top = 1 << (8 * fb)
+    for j in range(int((60 if quick else 600) * budget)):
+        xv = F.rnd(rng)
+        Q = cv.lift(xv)
+        xb = be(xv, fb)
+        rd(b"\2" + xb)
+        rd(b"\3" + xb)
+        cases.append("eb_upk %s %s %d %d" % (c, hx(xv), j % 2, j // 2 % 2))
+        if Q is None:
+            rd(b"\4" + xb + be(F.rnd(rng), fb))
+            continue
+        if j % 3 == 0:
+            Q = cv.neg(Q)
+        rd(b"\4" + xb + be(Q[1], fb))
+        rd(b"\4" + xb + be(Q[1] ^ (1 << rng.randrange(8 * fb)), fb))    # one bit of the ordinate flipped (may leave the field)
+        rd(b"\4" + be(Q[0] ^ (1 << rng.randrange(8 * fb)), fb) + be(Q[1], fb))
+        rep = rng.choice(["", "/P", "/p%x" % (F.rnd(rng) | 2), "/p%x" % (F.rnd(rng) | 2), "/h"])
+        for pack in (0, 1):
+            size = 1 + fb * (1 if pack else 2)
+            cases.append("eb_write_bin %s %s %d %d" % (c, pt_tok(Q, rep), pack, size + rng.choice((0, 0, 0, 1, -1, 7))))
+        cases.append("eb_pck %s %s %d" % (c, pt_tok(Q), j % 2))
+        for ln in (1, fb + 1, 2 * fb + 1):
+            rd(bytes([rng.choice((0, 2, 3, 4, 4, rng.randrange(256)))]) + bytes(rng.randrange(256) for _ in range(ln - 1)))
     # x = 0: the point of order two (0, sqrt b); only bit 0 is canonical
     rd(b"\2" + be(0, fb))
     rd(b"\3" + be(0, fb))
